@@ -70,7 +70,15 @@ class World:
 
     # ---- coil fired by MPF
     def coil_pulsed(self, dev):
-        self.log(op='fire', d=dev)
+        # context for the signature of a refused fire: balls already rolling towards the same target, and other
+        # sources whose coil was pulsed in this very instant (their ball has not moved yet)
+        tgt = self.TG[dev]
+        rolling = len([1 for p in self.loc.values() if isinstance(p, tuple) and p[0] == 'transit' and p[3] == 'ok' and p[2] == tgt
+                       and p[1] != 'pf'])
+        same = len([1 for d2 in self.fired if d2 != dev and self.TG[d2] == tgt])
+        back = len([1 for p in self.loc.values() if isinstance(p, tuple) and p[0] == 'transit' and p[3] == 'back' and p[1] == tgt])
+        sitting = len(self.at(tgt)) if tgt != 'pf' else 0
+        self.log(op='fire', d=dev, _rolling=rolling, _same=same, _back=back, _sitting=sitting, _tfired=int(tgt in self.fired))
         self.fired.add(dev)
         q = self.outcomes.get(dev) or []
         kind = q.pop(0) if q else 'ok'
@@ -203,8 +211,15 @@ def _exec(sched, seed, topo):
             w.log(op='rest', known=int(m.ball_controller.num_balls_known), idle=bool(idle), pending=pending,
                   states=[str(m.ball_devices[d].state) for d in DEVS])
 
-        for s in sched:
+        for si, s in enumerate(sched):
             op = s['op']
+            if 'after' in s and op in ('request', 'drain', 'shot', 'escape'):
+                # hand-written timing: this operation comes right after the named world event (op, device/place)
+                n0 = len(ev)
+                for _ in range(400):
+                    if any(e['op'] == s['after'][0] and e.get('d', e.get('at')) == s['after'][1] for e in ev[n0:]):
+                        break
+                    h.advance_time_and_run(0.05)
             if op == 'request':
                 w.request()
             elif op == 'drain':
@@ -215,7 +230,21 @@ def _exec(sched, seed, topo):
                 w.escape(s['d'])
             else:
                 continue
-            h.advance_time_and_run(rnd.choice([0.05, 0.3, 1.0, 2.5, 6.0, 15.0]))
+            if any('after' in s2 for s2 in sched[si + 1:si + 2]):
+                h.advance_time_and_run(0)       # the next operation brings its own timing
+                continue
+            if rnd.random() < 0.5:
+                h.advance_time_and_run(rnd.choice([0.05, 0.3, 1.0, 2.5, 6.0, 15.0]))
+            else:
+                # event-aligned timing: the next operation comes shortly after the next thing that happens in the world
+                # (a coil fires, a ball leaves / arrives), which is where the races between devices are
+                n0 = len([e for e in ev if e['op'] in ('fire', 'leave', 'arrive', 'noleave')])
+                k = rnd.choice([1, 1, 2, 3, 4])
+                for _ in range(200):
+                    h.advance_time_and_run(0.05)
+                    if len([e for e in ev if e['op'] in ('fire', 'leave', 'arrive', 'noleave')]) >= n0 + k:
+                        break
+                h.advance_time_and_run(rnd.choice([0.0, 0.05, 0.2, 0.4]))
             if rnd.random() < 0.25 and w.quiet():
                 rest(40)
         rest(60)
@@ -249,7 +278,14 @@ def handmade():
     X = {'op': 'escape', 'd': 'bd_lock'}
     L = lambda d, k: {'op': 'leave', 'd': d, 'kind': k}
     N = lambda d: {'op': 'noleave', 'd': d}
+    AF = lambda s, op, where: dict(s, after=(op, where))
     return [
+        # a second ball is requested while the lock's ball is between the lock and its eject-confirm switch / still in
+        # the lock with the coil fired / just arrived in the launcher (only meaningful where the lock feeds the launcher)
+        [R, AF(S, 'arrive', 'pf'), AF(R, 'leave', 'bd_lock'), D, D],
+        [R, AF(S, 'arrive', 'pf'), AF(R, 'fire', 'bd_lock'), D, D],
+        [R, AF(S, 'arrive', 'pf'), AF(R, 'arrive', 'bd_lock'), AF(R, 'leave', 'bd_lock'), D, D, D],
+        [R, R, AF(S, 'arrive', 'pf'), AF(D, 'leave', 'bd_lock'), AF(R, 'arrive', 'bd_plunger'), D],
         [R, D, R, R, D, D],
         [R, L('bd_trough', 'back'), L('bd_plunger', 'back'), R, D],
         [R, N('bd_trough'), N('bd_trough'), R, S, S, D],
@@ -309,7 +345,12 @@ def classify(fe, topo):
             return 'rest:not-idle:%s' % '+'.join(st for st in fe.get('states', []) if st != 'idle')
         return 'rest:counts-or-delivery'
     if fe.get('op') == 'fire':
-        return 'fire-at-full-target'
+        # why the target has no room: a ball that left another source earlier is still rolling towards it; the target's own
+        # failed eject is falling back into it; another source was fired in this same instant; the target's coil was
+        # just fired (MPF counts on that eject to succeed); or balls are simply sitting in it
+        why = [n for n, k in (('ball-rolling', '_rolling'), ('ball-falling-back', '_back'), ('same-instant', '_same'),
+                              ('target-ejecting', '_tfired')) if fe.get(k, 0) > 0]
+        return 'fire-at-full-target:' + ('+'.join(why) if why else 'ball-sitting')
     return 'step:%s' % fe.get('op', '?')
 
 
